@@ -3,6 +3,7 @@
 import os, sys
 sys.path.insert(0, os.path.dirname(os.path.abspath(__file__)))
 import vlib, scen, lcheck
+import c03
 
 PID = "C04"
 
@@ -16,6 +17,9 @@ def family(seed, tier):
         docs.append((s.s["name"], s.doc()))
     g = scen.peg_window_chain(seed, name="c04-pegwin", dups=False)
     docs.append((g.s["name"], g.doc()))
+    # bank era: batches that spend PEG around a PEG request whose PEG is only credited in a later pass (a batch that is refused, or that
+    # fails the block, must leave no trace: no debit of the request's input, no transfer of the PEG it already held)
+    docs += c03.bank_chains(seed, 1 if tier == "quick" else 3, prefix="c04")
     r = scen.rich_chain(seed, name="c04-rich", long=(tier != "quick"))
     docs.append((r.s["name"], r.doc()))
     return docs
